@@ -104,8 +104,8 @@ def num(x):
 
 
 def scalar(v, kind):
-    if v is None:
-        return np.nan if kind != "py" else float("nan")
+    if v is None:       # NaN as the numpy singleton, a fresh Python float, or a numpy scalar (three different objects)
+        return {"py": float("nan"), "np64": np.float64("nan"), "npf32": np.float32("nan")}.get(kind, np.nan)
     v = F(v)
     if kind == "int" and v.denominator == 1:
         return int(v)
@@ -516,6 +516,10 @@ class Runner:
         how = self.fl.get("cuts", "index")
         if how == "breaks" and contiguous and ivs:
             return st.slice([ivs[0][0]] + [b for _, b in ivs], closed=s["icl"])
+        if (how == "period" and self.dom.name == "dt" and ivs
+                and all(F(a).denominator == 1 and F(b) == F(a) + 1 for a, b in s["ivs"])):
+            # hourly periods (consecutive or not, in any order): period k is the interval from k to k + 1 of the unit
+            return st.slice(pd.PeriodIndex([pd.Period(a, freq="h") for a, _ in ivs]), closed=s["icl"])
         return st.slice(pd.IntervalIndex.from_tuples(ivs, closed=s["icl"]))
 
     def where_arg(self, s):
